@@ -214,8 +214,9 @@ def runStep (sc : Scen) (w0 : W) : W × RunObs :=
   else
     let w := spinPhase sc w
     -- finally: reactor.stop = real_stop; _restore_signals(): the handlers in `_saved_signals` are installed, the list is emptied
+    -- (and, since an interrupted run ends without `_stop_reactor`, `_spinning` is cleared)
     let w := { w with running := false, stopPatched := false, sigs := restoreFrom 0 w.sp.saved w.sigs,
-                      sp := { w.sp with saved := [] } }
+                      sp := { w.sp with saved := [], spinning := false } }
     let result := getResult w.sp
     -- finally: _clean(): the obligatory iterations, then whatever is left is cancelled / removed and recorded as junk
     let w := iterations sc sc.oblig w
